@@ -301,11 +301,17 @@ func builtBoxes() []Seed {
 	add("avcC", "high-ext", avcC(100, spsHigh, u8(0xfd, 0xf8, 0xf8, 0)))
 	add("avcC", "high-noext", avcC(100, spsHigh, nil))
 	add("avcC", "high422-ext", avcC(122, spsHigh, u8(0xfe, 0xfa, 0xfa, 0)))
+	// profiles outside {66,77,88,100,110,122,144} also carry the four trailing bytes
+	for _, prof := range []byte{244, 44, 118, 128, 83, 86, 138, 139, 134, 135} {
+		add("avcC", fmt.Sprintf("profile%d-ext", prof), avcC(prof, spsHigh, u8(0xff, 0xfa, 0xf9, 0)))
+	}
 	vps := []byte{0x40, 0x01, 0x0c, 0x01, 0xff, 0xff, 0x01, 0x60, 0x00, 0x00, 0x03, 0x00, 0x90, 0x00, 0x00, 0x03, 0x00, 0x00, 0x03, 0x00, 0x5d, 0x95, 0x98, 0x09}
 	sps5 := []byte{0x42, 0x01, 0x01, 0x01, 0x60, 0x00, 0x00, 0x03, 0x00, 0x90, 0x00, 0x00, 0x03, 0x00, 0x00, 0x03, 0x00, 0x5d, 0xa0, 0x02, 0x80, 0x80, 0x2d, 0x16, 0x59, 0x59, 0xa4, 0x93, 0x2b, 0xc0, 0x5a, 0x02}
 	pps5 := []byte{0x44, 0x01, 0xc1, 0x72, 0xb4, 0x62, 0x40}
 	add("hvcC", "3arrays", hvcC(hvcArray(true, 32, vps), hvcArray(true, 33, sps5), hvcArray(false, 34, pps5, pps5)))
 	add("hvcC", "noarrays", hvcC())
+	add("hvcC", "empty-array", hvcC(hvcArray(true, 32), hvcArray(true, 33, sps5), hvcArray(false, 34)))
+	add("hvcC", "empty-array-last", hvcC(hvcArray(true, 33, sps5), hvcArray(true, 39)))
 	av1cfg := cat(u8(0x81, 0x04, 0x0c, 0x00), []byte{0x0a, 0x0b, 0x00, 0x00, 0x00, 0x24, 0xcf, 0x7f, 0x0d, 0xbf, 0xff, 0x30, 0x08})
 	add("av1C", "obus", bx("av1C", av1cfg))
 	add("av1C", "delay", bx("av1C", u8(0x81, 0x25, 0xce, 0x15)))
@@ -330,6 +336,20 @@ func builtBoxes() []Seed {
 	asc := []byte{0x11, 0x90}
 	add("esds", "size1", esds(1, asc))
 	add("esds", "size4", esds(4, []byte{0x2b, 0x11, 0x88, 0x00}))
+	{
+		// other descriptors between DecoderConfigDescriptor and SLConfigDescriptor, and after it
+		dsi := cat(u8(5, 2), asc)
+		dcd := cat(u8(0x40, 0x15), u24(0x000300), u32(128000), u32(96000), dsi)
+		ipi := cat(u8(9, 2), u16(7))            // IPI_DescrPointer
+		lang := cat(u8(0x43, 3), []byte("eng")) // LanguageDescriptor
+		sl := cat(u8(6, 1, 2))
+		es1 := cat(u16(1), u8(0), u8(4, byte(len(dcd))), dcd, ipi, sl)
+		add("esds", "other-before-slconfig", fb("esds", 0, 0, u8(3, byte(len(es1))), es1))
+		es2 := cat(u16(1), u8(0), u8(4, byte(len(dcd))), dcd, lang, sl, ipi)
+		add("esds", "others-around-slconfig", fb("esds", 0, 0, u8(3, byte(len(es2))), es2))
+		es3 := cat(u16(1), u8(0), u8(4, byte(len(dcd))), dcd, sl, lang)
+		add("esds", "other-after-slconfig", fb("esds", 0, 0, u8(3, byte(len(es3))), es3))
+	}
 	add("mp4a", "esds", audioEntry("mp4a", 2, 16, 48000, esds(4, asc), bx("btrt", u32(0), u32(128000), u32(96000))))
 	dac3 := bx("dac3", u8(0x10, 0x3d, 0x60))
 	dec3a := bx("dec3", u8(0x06, 0x00, 0x20, 0x0f, 0x00))
